@@ -82,49 +82,46 @@ def run(ctx):
     kinds = {}
     for bb, st in somes:
         conds = F.dominating_conds(gr, bb)
-        txt = ' ; '.join(c.show() for c in conds)
+        atoms = L.true_atoms(prog, gr, bb)
         v = gr.expr(st['r']['ops'][0]).show()
         if 'ConsecutiveFailures' in v:
-            clos_ok = False
-            for c in conds:
-                if c.kind == 'disc' and c.variant_is(1):
-                    f = c.expr.mentions_call(r'Option::<.*>::filter$')
-                    if f is not None and 'liveness_states' in f.show():
-                        for x in f.walk():
-                            if x.k == 'agg' and x.d == 'closure' and x.a in prog.bodies:
-                                if prog.bodies[x.a].calls(r'NodeLivenessState::should_evict$'):
-                                    clos_ok = True
-            kinds['failures'] = (bb, clos_ok, conds)
+            # on this return the liveness entry's should_evict(config) is known to be true (if-let + filter, let-chain, is_some_and ..)
+            clos_ok = any(e.mentions_call(r'NodeLivenessState::should_evict$') is not None for _b, e in atoms) and \
+                any('liveness_states' in c.expr.show() for c in conds if c.kind in ('disc', 'bool') and c.expr is not None)
+            kinds['failures'] = (bb, clos_ok, conds, 'liveness_states')
         elif 'LowTrust' in v:
-            clos_ok = False
-            for c in conds:
-                if c.kind == 'disc' and c.variant_is(1):
-                    f = c.expr.mentions_call(r'Option::<.*>::filter$')
-                    if f is not None and 'trust_scores' in f.show():
-                        for x in f.walk():
-                            if x.k == 'agg' and x.d == 'closure' and x.a in prog.bodies:
-                                cb = prog.bodies[x.a]
-                                for d2 in cb.defs().get(0, []):
-                                    if d2[0] == 's':
-                                        e = F.Expr.of_rvalue(cb, d2[3]['r'], 10)
-                                        if e.k == 'bin' and e.a in F.CMP_NEG:
-                                            c2 = F.Cond('cmp', op=e.a, lhs=e.b, rhs=e.c)
-                                            if L.cmp_is(c2, lambda ee: True, 'Lt', L.ends('.min_trust_threshold')):
-                                                clos_ok = True
-            kinds['trust'] = (bb, clos_ok, conds)
+            clos_ok = any(L.atom_is_cmp(e, lambda ee: True, 'Lt', L.ends('.min_trust_threshold')) for _b, e in atoms) and \
+                any('trust_scores' in c.expr.show() for c in conds if c.kind in ('disc', 'bool') and c.expr is not None)
+            kinds['trust'] = (bb, clos_ok, conds, 'trust_scores')
         else:
-            mk = any(c.kind == 'disc' and c.variant_is(1) and 'marked_for_eviction' in c.expr.show() for c in conds)
-            kinds['marked'] = (bb, mk, conds)
+            mk = any(c.kind == 'disc' and c.variant_is(1) and 'marked_for_eviction' in c.expr.show() for c in conds) or \
+                any(c.kind == 'bool' and c.truth and 'marked_for_eviction' in c.expr.show() for c in conds)
+            kinds['marked'] = (bb, mk, conds, 'marked_for_eviction')
     for k in ('marked', 'failures', 'trust'):
         okk = k in kinds and kinds[k][1]
         ctx.ob('REASONS', 'reason:%s' % k, okk, gr.where(), 'get_eviction_reason has a Some(..) return gated by the `%s` condition: %s' % (k, okk))
     ctx.ob('REASONS', 'reason:count', len(somes) == 3, gr.where(), '%d Some(..) returns (exactly the three policy reasons)' % len(somes))
-    # precedence: failures gate is tested only after marked missed; trust only after failures missed
+    # precedence: the gate of the earlier reason is evaluated before the later reason can be returned, and the later return is
+    # not reachable from the earlier gate's positive edge
+    def gate_edge(k):
+        bb, _ok, conds, table = kinds[k]
+        cands = [c for c in conds if c.edge is not None and c.expr is not None and table in c.expr.show() and
+                 ((c.kind == 'disc' and c.variant_is(1)) or (c.kind == 'bool' and c.truth))]
+        if not cands:
+            return None
+        edges = gr.edge_nodes()
+        for n, e in edges.items():
+            if e == cands[-1].edge:      # outermost such edge
+                return n
+        return None
     prec = False
     if all(k in kinds for k in ('marked', 'failures', 'trust')):
-        f_after_m = any(c.kind == 'disc' and 'marked_for_eviction' in c.expr.show() and c.value != 1 for c in kinds['failures'][2])
-        t_after_f = any(c.kind == 'disc' and 'liveness_states' in c.expr.show() and c.value != 1 for c in kinds['trust'][2])
-        prec = f_after_m and t_after_f
+        gm, gf = gate_edge('marked'), gate_edge('failures')
+        if gm is not None and gf is not None:
+            em, ef = gr.edge_nodes()[gm], gr.edge_nodes()[gf]
+            f_after_m = gr.dominates(em[0], kinds['failures'][0]) and kinds['failures'][0] not in gr.reachable_from([gm])
+            t_after_f = gr.dominates(ef[0], kinds['trust'][0]) and kinds['trust'][0] not in gr.reachable_from([kinds['failures'][0]])
+            prec = f_after_m and t_after_f
     ctx.ob('REASONS', 'reason:precedence', prec, gr.where(), 'precedence marked > failures > trust: %s' % prec)
     gc = prog.body(EM + '::get_eviction_candidates')
     ctx.touch(gc, len(gc.calls()))
@@ -206,16 +203,37 @@ def run(ctx):
     # ---- 4. selector
     swc = prog.body(SEL + '::select_peers_with_config')
     ctx.touch(swc, len(swc.calls()))
+    # the scoring step, in whichever form it is written: a filter_map closure (Some = emit, None = skip) or a loop in
+    # select_peers_with_config that pushes (candidate.clone(), score) and `continue`s to skip
     fm = None
     for c in swc.calls(r'Iterator::filter_map$|Iterator>::filter_map$'):
         for x in swc.expr(c.args[1]).walk():
-            if x.k == 'agg' and x.d == 'closure' and x.a in prog.bodies:
+            if x.k == 'agg' and x.d == 'closure' and x.a in prog.bodies and prog.bodies[x.a].calls(r'::compute_score$'):
                 fm = prog.bodies[x.a]
-    if fm is None:
-        ctx.ob('SELECTOR', 'filter-closure', False, swc.where(), 'scoring closure (filter_map) not found')
+    region = None
+    if fm is not None:
+        emits = [(bb, fm.expr(st['r']['ops'][0])) for bb, st in L.success_returns(fm)]
+        region = (fm, emits, L.rejecting_conds(fm), lambda e: any(x.k == 'param' for x in e.walk()))
     else:
+        scs = swc.calls(r'::compute_score$')
+        loops = [(h, ns) for h, ns in L.source_loops(swc) if scs and scs[0].bb in ns]
+        if loops:
+            h, ns = min(loops, key=lambda x: len(x[1]))
+            pushes = [c for c in swc.calls(r'Vec::<.*>::push$') if c.bb in ns and swc.expr(c.args[1]).mentions_call(r'::compute_score$') is not None]
+            emits = [(c.bb, swc.expr(c.args[1])) for c in pushes]
+            rej = []
+            for n, e in swc.edge_nodes().items():
+                if e[0] not in ns:
+                    continue
+                reach = swc.reachable_from([n], {h})
+                if not any(bb in reach for bb, _v in emits):
+                    rej.append(F.edge_cond(swc, e))
+            region = (swc, emits, rej, lambda e: L.mentions_next(e) is not None)
+    if region is None or not region[1]:
+        ctx.ob('SELECTOR', 'filter-closure', False, swc.where(), 'scoring step (filter_map closure or loop around compute_score) not found')
+    else:
+        fm, emits, rej, from_elem = region
         ctx.touch(fm, len(fm.calls()))
-        rej = L.rejecting_conds(fm)
         ex = any(L.cmp_is(c, lambda e: e.mentions_call(r'::get_trust_for_node$') is not None or 'trust' in e.show(), 'Lt', L.ends('.min_trust_threshold')) for c in rej)
         # that rejection is conditional on exclude_untrusted being true
         exg = False
@@ -228,19 +246,18 @@ def run(ctx):
         nan = any(c.kind == 'bool' and c.truth and c.expr.mentions_call(r'f64.*::is_nan$') is not None for c in rej)
         clone = False
         before_score = False
-        for bb, st in L.success_returns(fm):
-            v = fm.expr(st['r']['ops'][0])
+        for bb, v in emits:
             cl = v.mentions_call(r'Clone>::clone$')
-            clone = cl is not None and any(x.k == 'param' for x in cl.walk())
+            clone = cl is not None and from_elem(cl)
         sc = fm.calls(r'::compute_score$')
         if sc:
             # exclusion test dominates scoring
             before_score = any(L.cmp_is(c, lambda ee: True, 'Ge', L.ends('.min_trust_threshold')) or (c.kind == 'bool' and not c.truth and c.expr.show().endswith('.exclude_untrusted'))
                                for c in F.dominating_conds(fm, sc[0].bb))
         ctx.ob('SELECTOR', 'exclude-untrusted', ex and exg, fm.where(),
-               'closure returns None when exclude_untrusted && trust < min_trust_threshold (%s, guarded by the flag: %s)' % (ex, exg))
-        ctx.ob('SELECTOR', 'nan-dropped', nan, fm.where(), 'NaN scores return None: %s' % nan)
-        ctx.ob('SELECTOR', 'emits-candidate-clone', clone, fm.where(), 'Some(..) carries a clone of the candidate it was called with: %s' % clone)
+               'a candidate is skipped when exclude_untrusted && trust < min_trust_threshold (%s, guarded by the flag: %s)' % (ex, exg))
+        ctx.ob('SELECTOR', 'nan-dropped', nan, fm.where(), 'NaN scores are skipped: %s' % nan)
+        ctx.ob('SELECTOR', 'emits-candidate-clone', clone, fm.where(), 'what is emitted is a clone of the candidate being scored: %s' % clone)
     tk = [c for c in swc.calls(r'Iterator::take$|Iterator>::take$')]
     oktk = bool(tk) and swc.expr(tk[0].args[1]).strip().show() == 'count' and swc.expr(tk[0].args[0]).mentions_call(r'sort_by') is None
     srt = swc.calls(r'<impl \[T\]>::sort_by$|sort_by$')
